@@ -58,6 +58,10 @@ def run(chk, tier):
     chk.rule("R-UAF", "no use of a pointer after it was released: may-dataflow on released lvalues (free, hwloc_bitmap_free, hwloc_free_unlinked_object, closedir, ...), killed by re-assignment, with a correlated-condition path search and whole-program constant fields to discard infeasible paths")
     nua = uaf.run(chk, P, units=('topology.c', 'distances.c', 'memattrs.c', 'cpukinds.c'))
     chk.floor("R-UAF", "release sites examined", nua, 100)
+    chk.rule("R-CAPFIELD", "the capacity recorded for a heap array (X->*allocated* = F) has the same extent signature as the allocation of that array in the same function (X->A = alloc(E * sizeof ..))")
+    import capfield
+    ncf = capfield.run(chk, P, units=None)
+    chk.floor("R-CAPFIELD", "recorded capacities paired with an allocation", ncf, 5)
     chk.rule("R-CACHEINV", "validity flags of pointer caches are cleared and cached object pointers reset on the copy")
     dup.cacheinv(chk, P)
     chk.rule("R-TMA", "no plain allocator on the tma duplication path (see C19)")
@@ -66,7 +70,8 @@ def run(chk, tier):
     chk.rule("R-EXTENT", "sibling agreement on the extent of bulk copies of one array field")
     ne = extent.run(chk, P, list(P.units), fields=set(FIELDS))
     chk.floor("R-EXTENT", "bulk operations on distances/memattr arrays", ne, 11)
-    chk.decided += ["the duplication functions' failure paths release each allocation once (no use after release)",
+    chk.decided += ['a copy records for each heap array the capacity it was actually allocated with',
+                    "the duplication functions' failure paths release each allocation once (no use after release)",
                     "nothing is forgotten: every field of topology/object/distances/memattr/cpukind/infos records is set on the copy",
                     "the copy shares no mutable storage: no source pointer stored in the copy except object userdata; copied arrays have the allocation's extent",
                     "pointer caches are invalidated so that they are rebuilt against the new tree"]
